@@ -8,14 +8,15 @@ LEVEL = "proof"
 META = {
     "level": "proof",
     "technique": "Coq proofs (Karras radix-tree well-formedness for all sorted inputs; exactness of the stack traversal, x-sorted sweep and k-d query) + extracted-model correspondence with Collider/boolean2/tree2d + all-pairs oracle",
-    "text": "Coq theorems collisions_exact_box/point: for every node/children/box arrays accepted by the proved-sound certificate wf_check "
-            "(binary tree, depth<=64, leaves 0..n-1 once, internal boxes = unions), the ported 64-entry-stack traversal terminates and records exactly "
-            "the overlapping (query,leaf) pairs, each once, for all sizes and queries. The ported CreateRadixTree (RangeEnd/FindSplit/PrefixLength) is "
-            "proved well-formed exhaustively for a stated bound and is compared array-for-array with /repo's Collider on generated sorted code multisets; "
+    "text": "Coq theorems: radix_tree_wf_all - the ported CreateRadixTree (RangeEnd/FindSplit/PrefixLength with index tie-break) yields, for EVERY sorted code list with 2 <= n < 2^30 and any multiset of codes, "
+            "a binary tree over leaves 0..n-1 (each once) of depth <= 64; collisions_exact_box/point - for every array set accepted by the proved-sound certificate wf_check (which such trees with union boxes pass) "
+            "the ported 64-entry-stack traversal terminates without overflow and records exactly the overlapping (query,leaf) pairs, each once, for all sizes and queries (boxes may be unbounded); "
+            "sweep_pairs_exact and kd_query_exact_multiset prove the 2-D x-sorted sweep and the polygon k-d tree exact for all inputs. The ports are compared array-for-array with /repo's Collider, "
+            "boolean2 BVH, CollectIntersectionPairs and QueryTwoDTree on generated inputs (sizes straddling the probe length read from the source, identical codes, degenerate boxes, unbounded and empty queries); "
             "wf_check runs on every tree the implementation builds; recorded pairs are compared with the all-pairs scan.",
-    "note": "Trusted: Coq kernel, extraction (ExtrOcamlBasic), the C++ harness reading Collider's private arrays, integer-valued boxes standing for doubles "
-            "(order-isomorphic embedding). Not modelled: C++ int overflow in RangeEnd for n > 2^29 leaves; the 64-entry explicit stack of QueryTwoDTree (recursion in the model); "
-            "BuildInternalBoxes' atomic arrival counters (modelled as order-independent unions); MortonCode's floating-point part.",
+    "note": "Trusted: Coq kernel, extraction (ExtrOcamlBasic), the C++ harnesses reading Collider's private arrays, integer-valued boxes standing for doubles (order-isomorphic embedding, +-2^60 for +-infinity). "
+            "Not modelled: C++ int overflow in RangeEnd for n > 2^29 leaves; the 64-entry explicit stack of QueryTwoDTree (recursion in the model); "
+            "BuildInternalBoxes' atomic arrival counters (modelled as order-independent unions); MortonCode's floating-point part; Collider::Transform/UpdateBoxes are covered only through the box-level theorem (any boxes).",
 }
 
 
@@ -115,10 +116,28 @@ def case_line(c):
                                             " ".join(map(str, c["queries"])))
 
 
-def brute(c):
+def updated_boxes(c):
+    nb = []
+    for i, b in enumerate(c["boxes"]):
+        sh = [(i * 7) % 5 - 2, (i * 3) % 4 - 1, (i % 3) - 1]
+        nb.append([b[0] + sh[0], b[1] + sh[1], b[2] + sh[2],
+                   b[3] + sh[0] + i % 2, b[4] + sh[1], b[5] + sh[2] + (i // 2) % 2])
+    return nb
+
+
+def transformed_boxes(boxes):
+    out = []
+    for b in boxes:
+        lo = [2 * b[1] + 1, -b[2] + 2, 3 * b[0] + 3]
+        hi = [2 * b[4] + 1, -b[5] + 2, 3 * b[3] + 3]
+        out.append([min(lo[k], hi[k]) for k in range(3)] + [max(lo[k], hi[k]) for k in range(3)])
+    return out
+
+
+def brute(c, boxes=None):
     out = set()
     for q in range(c["m"]):
-        for l, b in enumerate(c["boxes"]):
+        for l, b in enumerate(boxes if boxes is not None else c["boxes"]):
             if c["self"] and q == l:
                 continue
             if c["kind"] == 0:
@@ -168,9 +187,12 @@ def run(cx):
     rc2, out_model, err2 = vp.sh2([drv], input=inp, timeout=1800)
     if rc2 != 0:
         cx.broke("corr:C14/model-driver", "model driver exited %d: %s" % (rc2, err2[-400:]))
-    impl, cert_lines, parents = {}, [], {}
+    impl, cert_lines, parents, after = {}, [], {}, {}
     for l in out_impl.splitlines():
-        if l.startswith("R "):
+        if l.startswith("A "):
+            t = l.split()
+            after[t[1]] = list(zip(map(int, t[2::2]), map(int, t[3::2])))
+        elif l.startswith("R "):
             impl[l.split(" ", 2)[1]] = l
         elif l.startswith("CERT "):
             cert_lines.append(l)
@@ -215,6 +237,20 @@ def run(cx):
             mism += 1
             if mism <= 3:
                 cx.broke("corr:C14/radix_tree#case %s" % k, "model and implementation differ: impl=%s model=%s" % (li[:300], str(model.get(k))[:300]))
+        if not c["self"]:
+            ub = updated_boxes(c)
+            for suf, bx, what in ((".u", ub, "UpdateBoxes"), (".t", transformed_boxes(ub), "axis-aligned Transform")):
+                got2 = after.get(k + suf)
+                if got2 is None:
+                    cx.broke("corr:C14/%s#case %s" % (what, k), "no output after %s" % what)
+                    continue
+                want2 = brute(c, bx)
+                if set(got2) != want2 or len(got2) != len(set(got2)):
+                    cx.violation("pairs-differ-from-all-pairs-scan-after-" + what.split()[-1].lower(),
+                                 "after %s the recorded pairs differ from the all-pairs scan over the new boxes (missing %s, extra %s)" % (
+                                     what, sorted(want2 - set(got2))[:4], sorted(set(got2) - want2)[:4]), {"case": case_line(c), "after": what})
+                if certs.get(k + suf) != "1":
+                    cx.broke("cert:C14/wf_check after %s#case %s" % (what, k), "arrays after %s fail the certificate wf_check (internal boxes are not the unions of the new leaf boxes)" % what)
         if certs.get(k) != "1":
             cx.broke("cert:C14/wf_check#case %s" % k, "implementation arrays fail the proved-sound certificate wf_check")
         if parents.get(k) != "1":
